@@ -166,6 +166,35 @@ func C15(c *Ctx) {
 		})
 		c.R.Check(okLate && nrec > 0, "C15-R1", "SetMachine: a spec source is reported only when it is in effect", c.P.Pos(setM.Pos()), "no error return is reachable after the record of Changed.SpecSrc", whyLate)
 	}
+	// a machine created anew under an id whose deletion is still pending: what the store holds for the id is the
+	// deleted machine's state, so the new machine's state is recorded with the change (whether or not the caller
+	// gave one)
+	{
+		okRe, whyRe := false, "where SetMachine finds a pending deletion for a machine it has just created it records no state: the store keeps the deleted machine's state under the id, and a crew rebuilt from it resumes the old machine"
+		ssau.Instrs(setM, func(in ssa.Instruction) {
+			st, ok := in.(*ssa.Store)
+			if !ok || !ssau.IsField(st.Addr, prog.Abs("sio"), "Changed", "State") {
+				return
+			}
+			// the value: the (new) machine's own state
+			isMachineState := false
+			for _, d := range deepDefs(st.Val, []*ssa.Function{setM}) {
+				if _, is := ssau.LoadOfField(d, prog.Abs("crew"), "Machine", "State"); is {
+					isMachineState = true
+				}
+			}
+			if !isMachineState {
+				return
+			}
+			// under "Deleted is set" on the pending record
+			for _, f := range flow.FactsAt(st.Block()) {
+				if ld, isLd := f.Cond.(*ssa.UnOp); isLd && f.True && ssau.IsField(ld.X, prog.Abs("sio"), "Changed", "Deleted") {
+					okRe = true
+				}
+			}
+		})
+		c.R.Check(okRe, "C15-R1", "SetMachine: a machine created over a pending deletion has its state reported", c.P.Pos(setM.Pos()), "Changed.State = the machine's State where the pending record says Deleted", whyRe)
+	}
 	// a machine that exists again is not reported as deleted: SetMachine withdraws a pending deletion
 	{
 		okUndel := false
